@@ -104,6 +104,8 @@ def _call_expr(c, in_module, prog):
 
 def render_func(f, prog, plain):
     sig = "x=%r, *, k=%r" % (f["pos_default"], f["kw_default"])
+    if f.get("no_pos_default"):  # the only default value is the keyword-only one
+        sig = "x, *, k=%r" % (f["kw_default"],)
     if any(c["form"] == "arg" for c in f["calls"]):
         sig = "x=%r, fnarg=None, *, k=%r" % (f["pos_default"], f["kw_default"])
     if f.get("sentinel_default"):
